@@ -60,8 +60,9 @@ CLAIMED = {
             'gap-free tiling from the fluid core to 10 m, fluid thermal mass, layer resistances summing to R_b*. Dynamic clauses by one '
             'inductive step from an arbitrary state on reduced meshes of 4 (quick) / 12 (thorough) concrete boreholes: energy stored = injected '
             '- outflow (1e-6), T >= T_init preserved, monotone step, g formula; induction gives non-decreasing g, g_bhw >= 0, g >= -2 pi k R_b*; '
-            'time axis of the real loop (first three solves, the borehole\'s own period): label step = coefficient step.',
-            'NOT claimed: 0.5 % agreement with a fine-mesh solution, finiteness in floats, resampling accuracy. dgtsv replaced by its contract; '
+            'time axis of the real loop (first three solves, the borehole\'s own period): label step = coefficient step; the 30 published '
+            'points (real resampling code, interp1d by contract) non-decreasing and inside the computed range; the model reused for another tube.',
+            'NOT claimed: 0.5 % agreement with a fine-mesh solution, finiteness in floats, resampling accuracy between samples. dgtsv replaced by its contract; '
             'coefficients = the binary64 values computed, taken as exact rationals; dynamic clauses on 17/24-cell meshes only (34 cells: z3 '
             'unknown).', '3/C10', None),
     'C11': ('Decidable part: joined axis strictly increasing, long-time points reproduced with radius-corrected values, short-time points kept '
